@@ -245,7 +245,7 @@ fn check_t<T: Elem>(case: &Case, cov: &mut Cov) -> CheckResult {
                     );
                     if n >= 2 {
                         let v = rs::var_unbiased(&xs);
-                        let tol_v = eps * (32.0 + 4.0 * nf) * (loc2[p] + sc2[p]) + 1e-5 * v + 1e-30;
+                        let tol_v = eps * (64.0 + 8.0 * nf) * (loc2[p] + sc2[p]) + 1e-5 * v + 1e-30;
                         let got_v = stats[c].sm2[p] as f64;
                         cov.track_max("var_dev_over_tol", (got_v - v).abs() / tol_v);
                         ensure!(
@@ -269,7 +269,7 @@ fn check_t<T: Elem>(case: &Case, cov: &mut Cov) -> CheckResult {
                     let want = rs::classical_rhat(&chains);
                     let w: f64 = chains.iter().map(|c| rs::var_unbiased(c)).sum::<f64>() / nc as f64;
                     // relative error of the streamed variances drives the error of the ratio
-                    let relw = eps * (32.0 + 4.0 * nf) * (loc2[p] + sc2[p]) / w.max(1e-300);
+                    let relw = eps * (64.0 + 8.0 * nf) * (loc2[p] + sc2[p]) / w.max(1e-300);
                     if !(want.is_finite()) || relw > 0.05 || !(w > 0.0) {
                         cov.class("rhat-ill-conditioned-skip");
                         continue;
@@ -315,7 +315,7 @@ fn check_t<T: Elem>(case: &Case, cov: &mut Cov) -> CheckResult {
     Ok(())
 }
 
-fn check(case: &Case, cov: &mut Cov) -> CheckResult {
+pub fn check(case: &Case, cov: &mut Cov) -> CheckResult {
     match case.etype {
         0 => check_t::<f32>(case, cov),
         1 => check_t::<f64>(case, cov),
@@ -326,7 +326,7 @@ fn check(case: &Case, cov: &mut Cov) -> CheckResult {
 
 pub fn run(ctx: &mut Ctx) {
     ctx.rule = "update histories of length 2..5000, 2..16 chains, 1..8 params, element types f32/f64/i32/u64, |loc|/scale <= 10, repeated states with probability `stick`; every prefix <= 64 and geometrically spaced longer ones is compared with f64 batch statistics; non-trivial = >=2 params and >=3 chains with distinct means; distinct by case fingerprint".into();
-    ctx.assume("tolerance model eps32*(32+4n)*(loc^2+scale^2) for streamed f32 second moments (worst-case linear accumulation: constant inputs round systematically), 2*eps32*n*(|loc|+scale) for means; observed maxima in evidence; R-hat compared where that error is < 5% of W");
+    ctx.assume("tolerance model eps32*(64+8n)*(loc^2+scale^2) for streamed f32 second moments (worst-case linear accumulation: constant inputs round systematically), 2*eps32*n*(|loc|+scale) for means; observed maxima in evidence; R-hat compared where that error is < 5% of W");
     ctx.assume("first value of p_accept is not fixed by the statement: only the range and the recurrence after the first update are checked");
     let t = ctx.tier;
     let max_len = if t == crate::engine::Tier::Quick { 2000 } else { 5000 };
